@@ -81,11 +81,14 @@ func heldBurst(w *W, ps *plans, uri, key string, in c07Inst, n int, a ans) (res 
 			returned.Add(1)
 		}(i)
 	}
-	settled = hx.WaitUntil(15*time.Second, func() bool {
+	accounted := func() bool {
 		inf := w.Farm.InflightKey(key)
 		reg := int(w.Pts.Count("get.registered") - baseReg)
 		return inf+reg+int(returned.Load()) >= n
-	})
+	}
+	// every request is at the origin, parked on the entry, or has returned; a second, equally long wait
+	// before a request that is nowhere to be seen counts as stuck inside the proxy
+	settled = hx.WaitUntil(15*time.Second, accounted) || hx.WaitUntil(15*time.Second, accounted)
 	inflightAtSettle = w.Farm.InflightKey(key)
 	parked = w.Pts.Count("get.registered") - baseReg
 	release()
@@ -93,6 +96,8 @@ func heldBurst(w *W, ps *plans, uri, key string, in c07Inst, n int, a ans) (res 
 	maxIn = w.Farm.MaxInflight(key)
 	return
 }
+
+var c07Reapplied atomic.Int64
 
 func c07History(r *hx.Run, w *W, ps *plans, rnd *rand.Rand, in c07Inst, hi int) {
 	uri := fmt.Sprintf("/c07/%d/%d", r.Seed, hi)
@@ -138,7 +143,9 @@ func c07History(r *hx.Run, w *W, ps *plans, rnd *rand.Rand, in c07Inst, hi int) 
 			}
 			now := w.Clock.Advance(st.adv)
 			m.normalise(now)
-			if si > 0 && hi%3 == 1 && rnd.Intn(2) == 0 {
+			// (at most 150 times per run: every re-apply replaces the upstream transports, whose idle
+			// connections stay open until their idle timeout - file descriptors of this process)
+			if si > 0 && hi%3 == 1 && rnd.Intn(2) == 0 && c07Reapplied.Add(1) <= 150 {
 				// the unchanged configuration is applied again (any unrelated configuration change does that):
 				// markers and entries of the surviving caches are kept
 				w.apply(r)
@@ -151,6 +158,9 @@ func c07History(r *hx.Run, w *W, ps *plans, rnd *rand.Rand, in c07Inst, hi int) 
 				r.Add("marker_evictions_forced", 1)
 			}
 			n := []int{1, 2, 3, 6, 12, 24}[rnd.Intn(6)]
+			if rnd.Intn(14) == 0 {
+				n = 64 // wider than the connection pools involved
+			}
 			a := probe
 			if si > 0 {
 				a = ans{Kind: kinds[rnd.Intn(len(kinds))], T: 5}
@@ -216,7 +226,10 @@ func c07History(r *hx.Run, w *W, ps *plans, rnd *rand.Rand, in c07Inst, hi int) 
 					return
 				}
 				if !settled {
-					r.InconclusiveCase(fmt.Sprintf("hit-for-pass burst of %d did not settle: %d in flight, trace=%v", n, infAtSettle, trace))
+					// neither at the origin (which holds every contact), nor parked on the entry, nor answered
+					// after 30 s: the missing requests are queued somewhere between the entry and the upstream
+					r.Violate("pass_requests_not_independent", map[string]string{"mode": "history", "where": "queued_before_the_upstream"}, fmt.Sprintf("burst of %d during the period: %d in flight at the origin, %d parked, the others neither forwarded nor answered within 30 s", n, infAtSettle, parked), map[string]interface{}{"trace": trace}, cs)
+					return
 				} else if infAtSettle < n {
 					r.Violate("pass_requests_not_independent", map[string]string{"mode": "history"}, fmt.Sprintf("burst of %d during the period: only %d were in flight together while the origin held them all", n, infAtSettle), map[string]interface{}{"trace": trace}, cs)
 					return
@@ -338,7 +351,7 @@ func c07Porcupine(r *hx.Run, w *W, rnd *rand.Rand, in c07Inst, n int) {
 }
 
 func c07(r *hx.Run) {
-	r.Rule = "histories per configured period {1s,2s,5m,0s,-3s,500ms,90s} (non-positive and sub-second => 300 s), in a third of them the unchanged configuration is applied again inside the period: 3-6 periods started by a probe answered uncacheable/no Cache-Control/5xx/protocol error/truncated body (handler abort)/cacheable, bursts of 1-24 at mark+0, +1, +P-1, +P (still pass) and +P+1 (single probe), all upstream contacts of a burst held at the origin until they are in flight together (=> not queued) or hooked state shows requests parked; plus staggered porcupine histories with a concurrent clock advancer. Non-trivial = history with >=1 pass burst fully overlapping at the origin; distinct = trace."
+	r.Rule = "histories per configured period {1s,2s,5m,0s,-3s,500ms,90s} (non-positive and sub-second => 300 s), in a third of them the unchanged configuration is applied again inside the period: 3-6 periods started by a probe answered uncacheable/no Cache-Control/5xx/protocol error/truncated body (handler abort)/cacheable, bursts of 1-24 (and 64) at mark+0, +1, +P-1, +P (still pass) and +P+1 (single probe), all upstream contacts of a burst held at the origin until they are in flight together (=> not queued) or hooked state shows requests parked; plus staggered porcupine histories with a concurrent clock advancer. Non-trivial = history with >=1 pass burst fully overlapping at the origin; distinct = trace."
 	r.Assume = []string{"virtual clock hook", "no eviction (cache 100000 >> keys)", "-race build"}
 	rnd := rand.New(rand.NewSource(r.Seed))
 	w, insts := c07World(r)
